@@ -30,6 +30,10 @@ CHECKS = {
          "Generated-input search; the metadata argument observed by a recording child of every node is compared, by object identity, with the documented function of the observed inputs' metadata. Exploration only.",
          "Trusted: harness/model.py metadata rules (DESIGN Appendix A), arrival observation by instance-level update() wrappers.",
          "DESIGN.md section 4 C10"),
+ "C16": ("Hypothesis-generated directly-connected pipelines + fault plans (which user-function invocations raise), sync / virtual-loop async / threaded modes; local per-node oracle with the failing invocations removed + exception identity + counter never triggered",
+         "Generated fault-sequence search: for each generated pipeline, input sequence and fault plan, the raised instance must reach the emit caller, every node's observed output must equal the documented function of its observed input with failing invocations removed (state kept), and failed elements' counters must never schedule the callback. Exploration only.",
+         "Trusted: local reference models; collect/slice (upstream state after a downstream failure is unspecified), remaining siblings/pieces after a failure (unspecified) are avoided by construction.",
+         "DESIGN.md section 4 C16"),
 }
 NOT_YET = "check not built yet in this session (the property is decidable with this technique; see DESIGN.md section 4)"
 
